@@ -20,6 +20,7 @@ pub struct St {
     pub q2: Option<QReg>,
     pub c: Option<CReg>,
     pub v: Option<VReg>,
+    pub i: crate::interp::ISt,
 }
 
 fn qobs(q: &QReg) -> String {
@@ -66,6 +67,8 @@ fn parse_cvec(toks: &[&str]) -> Option<Vec<C>> {
 fn exec_inner(st: &mut St, cmd: &str) -> String {
     let toks: Vec<&str> = cmd.split_whitespace().collect();
     match toks[0] {
+        "inew" | "ixor" | "iadd" | "ichg" | "iprep" | "isym" | "igate" => crate::interp::exec(&mut st.i, &toks),
+        "imark" | "isame" | "iexpect" | "isnap" | "iunchanged" => String::new(),
         "op" => {
             let prog = ops::parse_prog(&toks[1..].join(" ")).expect("bad op program");
             let b = ops::build(&prog);
@@ -1073,6 +1076,242 @@ fn gen_bits_case(r: &mut Rng, stats: &mut HashMap<String, usize>) -> (String, Ve
     (format!("mask={m}"), cmds)
 }
 
+use crate::interp::hex;
+use crate::qgen;
+
+fn join_src(parts: &[String]) -> String {
+    parts.join("\n")
+}
+
+/// C10/C11/C12 correspondence: a whole program, interpreted and executed.
+fn gen_int_case(r: &mut Rng, nonunitary: bool, stats: &mut HashMap<String, usize>) -> (String, Vec<String>) {
+    let p = qgen::gen_program(r, 5, nonunitary);
+    let mut all = p.decls.clone();
+    all.extend(p.stmts.clone());
+    let header = match r.below(3) {
+        0 => "OPENQASM 2.0;\ninclude \"qelib1.inc\";\n",
+        1 => "OPENQASM 2.0;\n// a comment\n",
+        _ => "",
+    };
+    let src = format!("{header}{}", join_src(&all));
+    *stats.entry(format!("stmts.{}", p.stmts.len())).or_default() += 1;
+    *stats.entry(format!("gates.{}", p.env.gates.len())).or_default() += 1;
+    for s in &p.stmts {
+        let k = s.split(|c: char| !c.is_alphanumeric() && c != '_').next().unwrap_or("").to_lowercase();
+        let k = if k.starts_with("if") { "if".to_string() } else { k };
+        *stats.entry(format!("stmt.{k}")).or_default() += 1;
+    }
+    let mut cmds = vec![if r.chance(1, 5) { "inew".to_string() } else { "inew".to_string() }];
+    if r.chance(1, 6) {
+        cmds.push("ixor".into());
+    }
+    cmds.push(format!("iadd {}", hex(&src)));
+    cmds.push("iexpect ok".into());
+    cmds.push("isym new".into());
+    cmds.push(format!("isym finish {}", r.next() >> 1));
+    if r.chance(1, 3) {
+        cmds.push("isym reset".into());
+        cmds.push(format!("isym finish {}", r.next() >> 1));
+    }
+    (format!("nq={}", p.env.nq()), cmds)
+}
+
+/// C13: a well-formed program with exactly one planted rule violation.
+fn gen_c13_case(r: &mut Rng, stats: &mut HashMap<String, usize>) -> (String, Vec<String>) {
+    let p = qgen::gen_program(r, 5, true);
+    let (bad, variant) = qgen::plant(r, &p.env);
+    *stats.entry(format!("plant.{variant}")).or_default() += 1;
+    let pos = r.below(p.stmts.len() + 1);
+    let mut all = p.decls.clone();
+    all.extend(p.stmts[..pos].iter().cloned());
+    all.push(bad.clone());
+    all.extend(p.stmts[pos..].iter().cloned());
+    let mut cmds = vec!["inew".to_string(), format!("iadd {}", hex(&join_src(&all))), format!("iexpect {variant}")];
+    // and the same program without the violation is accepted
+    let mut good = p.decls.clone();
+    good.extend(p.stmts.clone());
+    cmds.push("inew".into());
+    cmds.push(format!("iadd {}", hex(&join_src(&good))));
+    cmds.push("iexpect ok".into());
+    (format!("plant={variant} pos={pos}"), cmds)
+}
+
+/// C17: the same program fed whole, chunk by chunk through add_ast, and through
+/// ast_changes + append_int.
+fn gen_c17_case(r: &mut Rng, stats: &mut HashMap<String, usize>) -> (String, Vec<String>) {
+    let p = qgen::gen_program(r, 5, true);
+    let mut all = p.decls.clone();
+    all.extend(p.stmts.clone());
+    let k = r.range(1, all.len().min(5));
+    // cut points
+    let mut cuts: Vec<usize> = (0..k - 1).map(|_| r.range(1, all.len() - 1)).collect();
+    cuts.sort();
+    cuts.dedup();
+    let mut chunks = Vec::new();
+    let mut prev = 0;
+    for c in cuts.iter().chain(std::iter::once(&all.len())) {
+        if *c > prev {
+            chunks.push(join_src(&all[prev..*c]));
+            prev = *c;
+        }
+    }
+    *stats.entry(format!("chunks.{}", chunks.len())).or_default() += 1;
+    let seed = r.next() >> 1;
+    let xor = r.chance(1, 4);
+    let mut cmds = Vec::new();
+    for (label, mode) in [("whole", 0), ("add", 1), ("chg", 2)] {
+        cmds.push("inew".to_string());
+        if xor {
+            cmds.push("ixor".into());
+        }
+        match mode {
+            0 => cmds.push(format!("iadd {}", hex(&join_src(&all)))),
+            1 => {
+                for c in &chunks {
+                    cmds.push(format!("iadd {}", hex(c)));
+                }
+            }
+            _ => {
+                for c in &chunks {
+                    cmds.push(format!("ichg {}", hex(c)));
+                }
+            }
+        }
+        cmds.push(format!("iexpect asts {}", if mode == 0 { 1 } else { chunks.len() }));
+        cmds.push("isym new".into());
+        cmds.push(format!("isym finish {seed}"));
+        cmds.push(format!("imark {label}"));
+        if mode == 1 && r.chance(1, 2) {
+            // re-running reproduces the run from |0...0>
+            cmds.push("isym reset".into());
+            cmds.push(format!("isym finish {seed}"));
+            cmds.push("imark rerun".into());
+            cmds.push("isame add rerun".into());
+            cmds.push("isym init".into());
+            cmds.push("imark afterinit".into());
+            cmds.push("isame rerun afterinit".into());
+        }
+    }
+    cmds.push("isame whole add".into());
+    cmds.push("isame whole chg".into());
+    (format!("chunks={}", chunks.len()), cmds)
+}
+
+/// C18: a rejected chunk leaves the session unchanged.
+fn gen_c18_case(r: &mut Rng, stats: &mut HashMap<String, usize>) -> (String, Vec<String>) {
+    let p = qgen::gen_program(r, 5, true);
+    let ns = r.below(p.stmts.len() + 1);
+    let session = {
+        let mut v = p.decls.clone();
+        v.extend(p.stmts[..ns].iter().cloned());
+        v
+    };
+    // failing chunk: some good statements (also a new register / gate), then the violation
+    let p2 = qgen::gen_program(r, 5, true);
+    let (bad, variant) = qgen::plant(r, &p.env);
+    let npre = r.below(4);
+    let mut failing: Vec<String> = Vec::new();
+    if r.chance(1, 2) {
+        failing.push("qreg fresh[1];".into());
+    }
+    if r.chance(1, 2) {
+        failing.push("gate freshg a { h a; }".into());
+    }
+    for s in p.stmts.iter().chain(p2.stmts.iter()).take(npre) {
+        if p.stmts.contains(s) {
+            failing.push(s.clone());
+        }
+    }
+    failing.push(bad);
+    failing.extend(p.stmts.iter().take(r.below(3)).cloned());
+    *stats.entry(format!("plant.{variant}")).or_default() += 1;
+    *stats.entry(format!("prefix.{}", failing.len() - 1)).or_default() += 1;
+    let cont: Vec<String> = p.stmts[ns..].to_vec();
+    let seed = r.next() >> 1;
+    let mut cmds = vec!["inew".to_string(), format!("iadd {}", hex(&join_src(&session))), "isnap".into()];
+    cmds.push(format!("iadd {}", hex(&join_src(&failing))));
+    cmds.push(format!("iexpect {variant}"));
+    cmds.push("iunchanged".into());
+    if !cont.is_empty() {
+        cmds.push(format!("iadd {}", hex(&join_src(&cont))));
+    }
+    cmds.push("isym new".into());
+    cmds.push(format!("isym finish {seed}"));
+    cmds.push("imark after".into());
+    // the same session without the failed attempt
+    cmds.push("inew".into());
+    cmds.push(format!("iadd {}", hex(&join_src(&session))));
+    if !cont.is_empty() {
+        cmds.push(format!("iadd {}", hex(&join_src(&cont))));
+    }
+    cmds.push("isym new".into());
+    cmds.push(format!("isym finish {seed}"));
+    cmds.push("imark clean".into());
+    cmds.push("isame after clean".into());
+    (format!("plant={variant}"), cmds)
+}
+
+/// C09: one call of gates::process per case, every accepted name.
+fn gen_c09_case(r: &mut Rng, stats: &mut HashMap<String, usize>) -> (String, Vec<String>) {
+    let nq = r.range(1, 5);
+    let all = (1usize << nq) - 1;
+    let nctrl = if r.chance(1, 2) { r.range(1, 2.min(nq.saturating_sub(1)).max(1)) } else { 0 };
+    let (base, ntarget, nparam): (&str, usize, usize) = match r.below(6) {
+        0 => (*r.pick(&qgen::ONE_Q[..]), 1, 0),
+        1 => (*r.pick(&qgen::ROT1[..]), 1, 1),
+        2 => (*r.pick(&qgen::ROT2[..]), 2, 1),
+        3 => (*r.pick(&qgen::TWO_Q[..]), 2, 0),
+        4 => ("u2", 1, 2),
+        _ => ("u3", 1, 3),
+    };
+    let upper = r.chance(1, 5);
+    let name = format!("{}{}", "c".repeat(nctrl), if upper { base.to_uppercase() } else { base.to_string() });
+    *stats.entry(format!("name.{}{}", "c".repeat(nctrl), base)).or_default() += 1;
+    let mut cmds = Vec::new();
+    // distinct single-bit masks; sometimes a multi-bit target for the "any" gates
+    let mut regs: Vec<usize> = Vec::new();
+    let need = nctrl + ntarget;
+    if need <= nq {
+        let m = r.kbits(all, need).unwrap();
+        let mut bits: Vec<usize> = (0..64).filter(|b| m >> b & 1 == 1).map(|b| 1usize << b).collect();
+        // random order
+        for i in (1..bits.len()).rev() {
+            bits.swap(i, r.below(i + 1));
+        }
+        regs = bits;
+        if ntarget == 1 && nparam == 0 && r.chance(1, 4) {
+            // whole-register style target: a multi-bit mask disjoint from the controls
+            let used: usize = regs[..nctrl].iter().fold(0, |a, b| a | b);
+            let t = r.submask(all & !used);
+            if t != 0 {
+                regs.truncate(nctrl);
+                regs.push(t);
+            }
+        }
+    } else {
+        regs = vec![1];
+    }
+    let args: Vec<f64> = (0..nparam).map(|_| r.angle()).collect();
+    let bad = r.below(12);
+    let (regs, args) = match bad {
+        0 => (regs[..regs.len().saturating_sub(1)].to_vec(), args),
+        1 => (regs, { let mut a = args; a.push(0.5); a }),
+        2 if !regs.is_empty() => { let mut g = regs.clone(); g[0] = *g.last().unwrap(); (g, args) }
+        _ => (regs, args),
+    };
+    let mut c = format!("igate {} {}", hex(&name), regs.len());
+    for g in &regs {
+        c.push_str(&format!(" {g}"));
+    }
+    c.push_str(&format!(" {}", args.len()));
+    for a in &args {
+        c.push_str(&format!(" {}", a.to_bits()));
+    }
+    c.push_str(&format!(" {nq}"));
+    cmds.push(c);
+    (format!("name={name} nq={nq}"), cmds)
+}
+
 fn gen_dft_case(r: &mut Rng, max_n: usize, max_thr: usize, stats: &mut HashMap<String, usize>) -> (String, Vec<String>) {
     let n = r.range(1, max_n.max(1));
     let all = (1usize << n) - 1;
@@ -1115,6 +1354,12 @@ pub fn run(suite: &str, seed: u64, count: usize, kv: &HashMap<String, String>, t
             "meas" => gen_meas_case(&mut r, max_n, max_thr, &mut stats),
             "sample" => gen_sample_case(&mut r, max_n, max_thr, &mut stats),
             "bits" => gen_bits_case(&mut r, &mut stats),
+            "int" => gen_int_case(&mut r, false, &mut stats),
+            "intnu" => gen_int_case(&mut r, true, &mut stats),
+            "c13" => gen_c13_case(&mut r, &mut stats),
+            "c17" => gen_c17_case(&mut r, &mut stats),
+            "c18" => gen_c18_case(&mut r, &mut stats),
+            "c09" => gen_c09_case(&mut r, &mut stats),
             "dft" => gen_dft_case(&mut r, max_n, max_thr, &mut stats),
             other => panic!("unknown suite {other}"),
         };
